@@ -521,7 +521,6 @@ class numbers_converters_base(_check_value_base):
         self._check_size(size=len(python_object), path_producer=master.full_path)
         result = []
         for value in python_object:
-            self._check_value(value=value, path_producer=master.full_path)
             if value is None:
                 if self.allow_none_elements:
                     result.append(tokenizer.word(value="None"))
@@ -533,6 +532,7 @@ class numbers_converters_base(_check_value_base):
                 else:
                     raise RuntimeError("%s element cannot be Auto" % master.full_path())
             else:
+                self._check_value(value=value, path_producer=master.full_path)
                 result.append(tokenizer.word(value=self._value_as_str(value=value)))
         return result
 
